@@ -18,6 +18,9 @@ META = {
             'Independent of how validType is written: the stream `accept` calls the real purl.FromString on a well-formed purl of every emitted type (and, informationally, '
             'of every purl.Type* constant), and the `layout` harvest extracts the OS extractors\' fixtures at their PRODUCTION paths (dpkg status at usr/lib/opkg/status where '
             'ToPURL switches to type opkg, status.d, apk, rpm, cos, snap, pacman, portage, flatpak, kernel modules, nix store, macapps, homebrew) under 9 etc/os-release variants. '
+            'AUDIT NOTE: C14_proto_fields/_purl/_list and C14_cdx_fields are definitional restatements of the Lean record builder — their content is the correspondence stream that ties the '
+            'builder to proto.go (`proto` op) resp. C15\'s stream for the SBOM model; C14_proto_lossless_partial (reading the record back gives the package, against an independent reader) and '
+            'C14_spdx_fields (against a filter specification) are not. '
             'Conversions (all packages): the model of binary/proto packageToProto / purlToProto / layerDetailsToProto / annotationsToProto copies name, version, locations (order kept), '
             'extractor, ecosystem, source code, the purl ToPURL returned field by field (qualifiers in order), layer details (index within int32) verbatim, one record per package in order '
             '(tied to the real ScanResultToProto by the `proto` stream: harvested packages of every extractor + every metadata type of the proto switch + nasty strings); the model of '
@@ -34,7 +37,7 @@ NS = 'Scalibr.Index.'
 THEOREMS = [NS + t for t in ['C14_types_accepted', 'C14_types_resolved', 'C14_extractors_covered', 'C14_valid_lowercase',
                              'C14_index', 'C14_index_type', 'C14_index_all', 'C14_index_has', 'C14_index_only']] + \
            ['Scalibr.ProtoPkg.' + t for t in ['toInt32_id', 'C14_proto_fields', 'C14_proto_purl', 'C14_proto_layer_partial', 'C14_proto_layer_wraps',
-                                             'C14_proto_annotations', 'C14_proto_list']] + \
+                                             'C14_proto_annotations', 'C14_proto_list', 'C14_proto_lossless_partial', 'C14_proto_not_injective_outside']] + \
            ['Scalibr.Sbom.' + t for t in ['C14_spdx_fields', 'C14_cdx_fields']]
 KF_GOCASE = 'C14/golang-case-normalised'
 PROTO_KEYS = ['name', 'version', 'locs', 'src', 'anns', 'layer', 'purl', 'eco', 'ex', 'meta', 'pstr']
